@@ -59,6 +59,20 @@ REFUSALS = ('The trivial placement is not valid', 'No valid placement found', 'C
             'Cannot route circuit on disconnected qudits', 'Machine model is too small')
 
 
+# Inputs found by a seeded search (3000 candidates, about 0.4 % hits) on which the router of the unchanged tree runs into its
+# local-minimum escape DURING ROUTING (leading swaps popped from the circuit, uphill swaps): the path is too rare to rely on chance.
+ESCAPE_SEEDS = [
+    [9,[[0,1],[1,2],[2,3],[3,4],[4,5],[5,6],[6,7],[7,8]],{"nq":4,"ops":[{"k":"g","loc":[3,2,1],"v":2},{"k":"g","loc":[3,1],"v":2},{"k":"g","loc":[3,1],"v":5},{"k":"g","loc":[0,3,2],"v":0},{"k":"g","loc":[1,0,3],"v":0},{"k":"g","loc":[2,0,1],"v":3},{"k":"g","loc":[3,0],"v":1}]},{"placement":"greedy","layout_passes":0,"decay_delta":0.001,"decay_reset_interval":1,"decay_reset_on_gate":True,"extended_set_size":1,"extended_set_weight":1.0}],
+    [7,[[0,2],[0,6],[1,3],[3,4],[3,6],[5,6]],{"nq":7,"ops":[{"k":"g","loc":[4,6],"v":5},{"k":"g","loc":[3,1],"v":2},{"k":"g","loc":[0,3,1],"v":2},{"k":"g","loc":[2,3],"v":3},{"k":"g","loc":[4,6],"v":1},{"k":"g","loc":[3,0,1],"v":1},{"k":"g","loc":[5,4,1],"v":5},{"k":"g","loc":[3,1,4],"v":2},{"k":"g","loc":[5,2,6],"v":0}]},{"placement":"greedy","layout_passes":0,"decay_delta":0.1,"decay_reset_interval":1,"decay_reset_on_gate":True,"extended_set_size":0,"extended_set_weight":0.5}],
+    [7,[[0,5],[1,5],[2,3],[2,4],[2,5],[5,6]],{"nq":6,"ops":[{"k":"g","loc":[3,4,0],"v":0},{"k":"g","loc":[0,2,1],"v":4},{"k":"g","loc":[3,5],"v":0},{"k":"g","loc":[3,5,4],"v":1},{"k":"g","loc":[2,5],"v":2},{"k":"g","loc":[1,4,0],"v":5},{"k":"g","loc":[4,1,3],"v":5},{"k":"g","loc":[3,0],"v":4},{"k":"g","loc":[2,3,0],"v":0}]},{"placement":"trivial","layout_passes":0,"decay_delta":0.1,"decay_reset_interval":5,"decay_reset_on_gate":True,"extended_set_size":20,"extended_set_weight":0.5}],
+    [5,[[0,1],[0,4],[1,2],[2,3],[3,4]],{"nq":4,"ops":[{"k":"g","loc":[2,3,0],"v":0},{"k":"g","loc":[2,0,1],"v":2},{"k":"g","loc":[1,2,0],"v":2},{"k":"g","loc":[0,3,2],"v":1},{"k":"g","loc":[0,1,2],"v":4},{"k":"g","loc":[0,2,3],"v":5},{"k":"g","loc":[1,2,3],"v":5},{"k":"g","loc":[1,0,3],"v":4},{"k":"g","loc":[3,2],"v":4}]},{"placement":"greedy","layout_passes":0,"decay_delta":0.001,"decay_reset_interval":5,"decay_reset_on_gate":False,"extended_set_size":20,"extended_set_weight":1.0}],
+    [9,[[0,1],[0,2],[0,4],[0,7],[1,3],[2,3],[2,5],[3,4],[4,6],[4,8]],{"nq":7,"ops":[{"k":"g","loc":[6,4],"v":5},{"k":"g","loc":[2,1,4],"v":0},{"k":"g","loc":[0,6,4],"v":0},{"k":"g","loc":[3,5,0],"v":1},{"k":"g","loc":[3,0],"v":1},{"k":"g","loc":[4,3],"v":2},{"k":"g","loc":[6,3],"v":5},{"k":"g","loc":[1,2],"v":4},{"k":"g","loc":[6,0,4],"v":5},{"k":"g","loc":[0,4,5],"v":4},{"k":"g","loc":[0,6,2],"v":5}]},{"placement":"greedy","layout_passes":0,"decay_delta":0.1,"decay_reset_interval":5,"decay_reset_on_gate":True,"extended_set_size":20,"extended_set_weight":1.0}],
+    [9,[[0,6],[1,2],[1,5],[1,7],[2,4],[2,8],[3,5],[3,6],[5,6]],{"nq":6,"ops":[{"k":"g","loc":[5,0,4],"v":3},{"k":"g","loc":[5,0,2],"v":4},{"k":"g","loc":[1,0,4],"v":0},{"k":"g","loc":[0,2,1],"v":0},{"k":"g","loc":[5,2,1],"v":4},{"k":"g","loc":[1,0,2],"v":5},{"k":"g","loc":[3,5,2],"v":1},{"k":"g","loc":[2,5,0],"v":1},{"k":"g","loc":[2,1,4],"v":2},{"k":"g","loc":[0,3,5],"v":4},{"k":"g","loc":[3,0,2],"v":5}]},{"placement":"greedy","layout_passes":0,"decay_delta":0.001,"decay_reset_interval":5,"decay_reset_on_gate":True,"extended_set_size":20,"extended_set_weight":0.5}],
+    [7,[[0,1],[1,3],[1,4],[1,5],[2,5],[5,6]],{"nq":7,"ops":[{"k":"g","loc":[1,2],"v":5},{"k":"g","loc":[1,5,3],"v":0},{"k":"g","loc":[1,5,0],"v":0},{"k":"g","loc":[2,6,5],"v":5},{"k":"g","loc":[0,3,6],"v":0},{"k":"g","loc":[2,3,4],"v":5},{"k":"g","loc":[4,5,0],"v":3},{"k":"g","loc":[1,2,6],"v":5},{"k":"g","loc":[1,3],"v":5},{"k":"g","loc":[2,1,3],"v":3},{"k":"g","loc":[1,4,3],"v":4},{"k":"g","loc":[4,3],"v":0},{"k":"g","loc":[4,6],"v":5},{"k":"g","loc":[2,6,1],"v":1},{"k":"g","loc":[4,2],"v":0}]},{"placement":"trivial","layout_passes":0,"decay_delta":0.0,"decay_reset_interval":5,"decay_reset_on_gate":False,"extended_set_size":20,"extended_set_weight":0.5}],
+    [7,[[0,5],[1,3],[1,6],[2,5],[3,4],[4,6],[5,6]],{"nq":7,"ops":[{"k":"g","loc":[3,6,5],"v":3},{"k":"g","loc":[4,6,5],"v":2},{"k":"g","loc":[4,6,5],"v":2},{"k":"g","loc":[5,4,1],"v":2},{"k":"g","loc":[6,1,0],"v":1},{"k":"g","loc":[2,0,3],"v":2},{"k":"g","loc":[4,2,6],"v":0},{"k":"g","loc":[3,1,0],"v":1},{"k":"g","loc":[5,2,6],"v":3},{"k":"g","loc":[3,5,4],"v":1},{"k":"g","loc":[4,5,2],"v":5},{"k":"g","loc":[5,6],"v":3},{"k":"g","loc":[2,3,1],"v":3},{"k":"g","loc":[0,2,3],"v":2},{"k":"g","loc":[0,1],"v":1}]},{"placement":"greedy","layout_passes":0,"decay_delta":0.001,"decay_reset_interval":5,"decay_reset_on_gate":True,"extended_set_size":1,"extended_set_weight":0.5}],
+]
+
+
 # ----------------------------------------------------------------------------- inputs
 
 def connected(n, edges):
@@ -191,10 +205,16 @@ def observe(job):
     class _Count(logging.Handler):
         n = 0
 
+        routing = 0
+        now = ''
+
         def emit(self, record):
             if 'backtracking' in record.getMessage():
                 _Count.n += 1
+                if _Count.now == 'route':
+                    _Count.routing += 1
     _Count.n = 0
+    _Count.routing = 0
     lg = logging.getLogger('bqskit.passes.mapping.sabre')
     h = _Count(level=logging.DEBUG)
     old = (lg.level, lg.propagate, logging.root.manager.disable)
@@ -213,6 +233,7 @@ def observe(job):
         if name == 'apply':
             placement_before_apply = [int(x) for x in data.placement]
             pre_apply_swaps = [[int(q) for q in op.location] for op in circ if isinstance(op.gate, SwapGate)]
+        _Count.now = name
         try:
             _run(p, circ, data)
         except MachineryError:
@@ -252,12 +273,12 @@ def observe(job):
             'needconn': [_needconn(o) for o in recipe['ops']], 'out': out,
             'pinit': [int(x) for x in data.initial_mapping], 'pfinal': [int(x) for x in data.final_mapping],
             'placement': placement_before_apply if placement_before_apply else [int(x) for x in data.placement][:n],
-            'raised': raised, 'width': int(circ.num_qudits), 'escapes': _Count.n,
+            'raised': raised, 'width': int(circ.num_qudits), 'escapes': _Count.n, 'escapes_routing': _Count.routing,
             'snaps': snaps, 'swaps': pre_apply_swaps, 'cfg': cfg, 'recipe': recipe}
 
 
 def _strip(c):
-    return {k: v for k, v in c.items() if k not in ('snaps', 'swaps', 'cfg', 'recipe', 'src', 'width', 'escapes')}
+    return {k: v for k, v in c.items() if k not in ('snaps', 'swaps', 'cfg', 'recipe', 'src', 'width', 'escapes', 'escapes_routing')}
 
 
 # ----------------------------------------------------------------------------- TLC runs
@@ -275,7 +296,7 @@ def _coverage(out):
 
 def run_algebra(ctx, stats):
     configs = [(2, 3, 'all', 3), (3, 4, 'all', 3), (4, 5, 'rep', 2)] if ctx.quick else \
-              [(2, 3, 'all', 4), (3, 4, 'all', 4), (3, 5, 'all', 3), (4, 4, 'all', 3), (4, 5, 'rep', 3)]
+              [(2, 3, 'all', 4), (3, 4, 'all', 4), (3, 5, 'rep', 4), (4, 4, 'all', 3), (4, 5, 'rep', 3)]
     cov = {a: 0 for a in ALG_ACTIONS}
     runs = []
     for nl, np_, gm, ms in configs:
@@ -372,8 +393,12 @@ def run(ctx: Ctx) -> Outcome:
                                     for _ in range(rng.randint(10, 25))]}
             cfg = random_config(rng)
             cfg['placement'] = rng.choice(['greedy', 'trivial'])
+            cfg['layout_passes'] = rng.choice([0, 0, 1])
             jobs.append((nphys, edges, rec, cfg))
             srcs.append('hard')
+        for nphys, edges, rec, cfg in ESCAPE_SEEDS:
+            jobs.append((nphys, edges, rec, cfg))
+            srcs.append('escape-seed')
     t1 = time.time()
     results = _c08._pool_map(observe, jobs)
     t2 = time.time()
@@ -475,6 +500,7 @@ def run(ctx: Ctx) -> Outcome:
         'mapping_traces_replayed_through_L2': len(traced), 'drift': drift,
         'swaps_inserted': nswaps, 'runs_with_swaps': len(withsw),
         'local_minimum_escapes': sum(c['escapes'] for c in cases), 'runs_with_local_minimum_escape': sum(1 for c in cases if c['escapes']),
+        'local_minimum_escapes_while_routing': sum(c['escapes_routing'] for c in cases),
         'by_source': by_src, 'by_placement': by_place, 'skipped_refused_by_design': skipped,
         'verdicts_by_clause': by_clause,
         'max_machine': max(c['nphys'] for c in cases), 'max_circuit_width': max(c['nlog'] for c in cases),
